@@ -175,6 +175,20 @@ CHECKS = {
              "(unit second moment, zero mean; E l(U)^2 = 2 for the Laplacian transform) is an assumption validated statistically on >= 2^22 "
              "samples per case with 6.5-sigma bounds (per-test false-alarm 8e-11), on the implementation only.",
         technique="Coq proof (Reals: algebra of sqrt/exp/ln; rationals: verified checkers) + kernel-evaluated correspondence on same-seed runs + statistical oracle for the sampler's second moment"),
+    "C08": dict(
+        text="Coq theorems on exact rationals in squared form (an item is scaled by s with s^2 = T/(c+eps)): the factor is positive, the output power is "
+             "T c/(c+eps) < T for every input and >= 0.999 T once c >= 999 eps, a second application and a rescaled input stay within the same 0.1 % band; "
+             "clamp bounds every sample, is idempotent, keeps signs and leaves in-range samples alone; clipping squared magnitudes at any level and "
+             "positive scaling never increase the peak-to-average ratio, hence by induction over its 15 iterations the PAPR algorithm never increases it; "
+             "every output sample is below sqrt(0.98 m avg); the limit m is met whenever the final clip keeps 98 % of the power (partial: otherwise decided "
+             "per input); composite = sequential application; the OFDM chain PAPR -> total power -> peak meets all three limits; a trailing up-scaling after "
+             "the clamp is refuted by a witness. The 15-iteration PAPR model, the power law, the clamp and the complex magnitude clip are evaluated by the "
+             "kernel against the implementation's float64 output.",
+        design="6/C08",
+        note="Trusted: Coq kernel + vm_compute; hand-written model Constr/Power.v tied by kernel-evaluated checks on implementation output; all theorems "
+             "closed under the global context (no axioms). Float arithmetic compared with tolerance 1e-5 (power) / 1e-4 (PAPR model); the +1e-8 inside "
+             "x/(|x|+1e-8) is not modelled. The PAPR limit is demanded of signals on which it is attainable by clipping within 20 dB of the peak.",
+        technique="Coq proof (ordered-field reasoning on rationals, induction over lists and over the clipping loop) + kernel-evaluated correspondence on implementation output + layout/family sweep on the implementation"),
     "C10": dict(
         text="Coq theorems over exact rationals: the Wagner decoder returns, for EVERY non-empty real input (ties included), an even-parity "
              "word of maximum correlation (ML for the single-parity-check code); flooding BP / min-sum on ANY parity-check matrix returns the "
